@@ -95,6 +95,7 @@ def main(argv):
     t_start = time.time()
     timeout_ms = 10000 if tier == 'quick' else 60000
     funcs = list(prop['functions'])
+    bounded_funcs = list(prop.get('bounded', []))   # twin only: bounded stand-ins, never counted as proved
     lemma_names = list(prop.get('lemmas', []))
     baseline = load_json(os.path.join(ROOT, 'baseline', pid + '.json'), {})
     known = [k for k in load_json(os.path.join(ROOT, 'known_findings.json'), []) if isinstance(k, dict)
@@ -103,7 +104,8 @@ def main(argv):
     results = []
     twin_budget = 150 if tier == 'quick' else 1500
     with ProcessPoolExecutor(max_workers=16) as ex:
-        f_twin = [ex.submit(_twin, (fn, seed, twin_budget)) for fn in funcs]
+        f_twin = [ex.submit(_twin, (fn, seed, twin_budget)) for fn in funcs] + \
+                 [ex.submit(_twin, (fn, seed, twin_budget * 10)) for fn in bounded_funcs]
         results = list(ex.map(_gen, funcs)) + list(ex.map(_lemma, lemma_names))
         twin = dict(f.result() for f in f_twin)
 
@@ -258,6 +260,8 @@ def main(argv):
             untranslated=[(r['name'], r['error']) for r in untranslated],
             samples=samples[:12],
             runtime_twin_bounded=twin_summary,
+            bounded_stand_ins=[dict(function=fn, bound='%d seeded random cases (run-time twin)' % (twin_budget * 10),
+                                    result=twin_summary.get(fn)) for fn in bounded_funcs],
             explanation=prop.get('explanation', ''),
             termination='not verified (partial correctness)',
         ),
